@@ -33,7 +33,7 @@ import hashlib
 import sys
 import warnings
 
-CONTEXTS = ("mod", "fn", "afn", "gen", "cls")
+CONTEXTS = ("mod", "fn", "afn", "gen", "cls", "meth")
 
 # Names used by the fragments.  They are bound at module level by PRELUDE and
 # shadowed by parameters in the function contexts, so every program is closed.
@@ -48,6 +48,7 @@ _CTX = {
     "afn": "async def f0(a, b, c):\n  x = None\n  $0\n  z = x\n",
     "gen": "def f0(a, b, c):\n  x = yield a\n  $0\n  z = x\n",
     "cls": "class K0:\n  x = None\n  $0\n  z = x\n",
+    "meth": "class K0:\n  def m0(self, a, b, c):\n    x = None\n    $0\n    z = x\n",
 }
 
 # Simple statements (no statement holes).  Order is part of the enumeration.
@@ -77,6 +78,11 @@ LEAVES = (
     ("boolop", "x = a and b or (c if a else b)"),
     ("import", "import collections"),
     ("del", "del x"),
+    # statements that make pytype report an error (recoverable analysis paths)
+    ("nameerr", "x = undefined_name"),
+    ("attrerr", "x = a.no_such_attribute"),
+    ("lambdaerr", "x = (lambda: undefined_name2)()"),
+    ("callerr", "x = K(1, 2, 3, 4)"),
 )
 
 # Compound statements.  "$k" on a line of its own is statement hole k.
